@@ -1,5 +1,6 @@
 import PycModel.Parser.Stmt
 import PycModel.Properties.C09
+import PycModel.Proofs.TransUnit
 /-!
 # C11 — coordinates point at real source locations
 
@@ -55,5 +56,46 @@ theorem coord_is_true_token_position (text : List Char) (file : String)
   rw [← h, ← hc] at hi
   have := resolved_position_is_event_position _ file c _ hi
   exact ⟨this.1, this.2, hx⟩
+
+/-! ## declared names: the coordinate is that of the token that spells the name -/
+
+open PycModel.View PycModel.FullExpr PycModel.DeclSkel PycModel.DeclParse PycModel.BuildDecl in
+/-- **The `TypeDecl` of a declared name carries the index of exactly the `ID` token that spells
+it.**  For every named declarator (pointers with qualifiers in front, array / function suffixes
+behind, any length) whose first token is token number `n` of the input: the coordinate the parser
+gives the name-carrying `TypeDecl` (`dTco`, the value `DeclParse.parse_declaration` returns) is
+the pseudo-coordinate `tc k` of token `k = n + (number of pointer / qualifier tokens)`, and token
+`k` of the input is `("ID", name)`.  With `coord_is_true_token_position` (a coordinate carrying a
+token's index resolves to that token's true file / line / column) this is the "exactly the token
+that spells them" clause of the property for declared names. -/
+theorem declared_name_coordinate_is_its_token {d : D} (hwf : WFD d) (hn : NoParen d) (n : Nat) :
+    dTco n d = tc (n + starsNtoks (dStars d)) ∧ d.flat[starsNtoks (dStars d)]? = some ("ID", dName d) := by
+  refine ⟨?_, ?_⟩
+  · induction hwf generalizing n with
+    | name x => simp [dTco, dStars, starsNtoks]
+    | paren d _ _ => exact absurd hn (by simp [NoParen])
+    | ptr stars d _ _ _ _ ih =>
+      simp only [dTco, dStars, starsNtoks_append]
+      rw [ih hn]; congr 1; omega
+    | arr d dim _ _ _ ih => simpa [dTco, dStars] using ih hn n
+    | fn0 d _ _ ih => simpa [dTco, dStars] using ih hn n
+  · rw [flat_noParen hwf hn, List.getElem?_append_right (by simp [starsFlat_length])]
+    simp [starsFlat_length]
+
+open PycModel.View PycModel.FullExpr PycModel.DeclSkel PycModel.DeclParse PycModel.BuildDecl PycModel.TypeModify in
+/-- the `Decl` built for an init-declarator carries, at the end of its type chain, a `TypeDecl` whose
+name and coordinate are those of the declarator's `ID` token -/
+theorem decl_typedecl_names_its_token (sp : DeclSpec) (ico : Option Coord) (names : List String) (it : IDc) (hwf : WFI it) (n : Nat) :
+    ∃ ty, declOut sp ico names (it.di n) =
+        mk .Decl (it.di n).coord [.str (dName it.d), .list sp.qual, .list sp.alignment, .list sp.storage, .list sp.function,
+          chainVal (it.d.chain n) (mk .TypeDecl (tc (n + starsNtoks (dStars it.d))) [.str (dName it.d), .list sp.qual, .none, ty]),
+          (it.di n).init, .none] ∧
+      it.d.flat[starsNtoks (dStars it.d)]? = some ("ID", dName it.d) := by
+  obtain ⟨h1, h2⟩ := declared_name_coordinate_is_its_token hwf.wfd hwf.noParen n
+  refine ⟨identType ico names, ?_, h2⟩
+  have hdi : (it.di n).tco = tc (n + starsNtoks (dStars it.d)) := h1
+  show declPost _ _ _ _ _ _ (chainVal (it.di n).ms (tdFull (it.di n).x (it.di n).tco sp.qual (identType ico names))) _ = _
+  rw [hdi]
+  rfl
 
 end PycModel.C11
